@@ -1206,7 +1206,9 @@ func selectLiteralStrategy(literals *literal.Seq, litAnalysis literalAnalysis) S
 	// Patterns with >32 literals exceed Teddy's capacity but Aho-Corasick handles
 	// thousands of patterns with O(n) matching time.
 	// Speedup: 50-500x by using dense array transitions (~1.6 GB/s throughput).
-	if litAnalysis.hasAhoCorasickLiterals && literals.AllComplete() {
+	// The automaton reports bare literal matches, so no assertion (^, $, \b, \B)
+	// may be attached to any literal.
+	if litAnalysis.hasAhoCorasickLiterals && literals.AllComplete() && !litAnalysis.hasAnchors {
 		return UseAhoCorasick
 	}
 
